@@ -303,7 +303,7 @@ class CallMixin(object):
         if rt[0] in ('ndarray', 'memview', 'ptr'):
             h = c.hints.get('result', {})
             return self.symbolic_of_ctype(rt, 'ret_%s' % func.name, h)
-        if c.opts.get('result_none'):
+        if c.opts.get('result_none') or func.name == '__init__':
             return None
         if 'result_sort' in c.opts:
             return self.fresh('ret_%s' % func.name, c.opts['result_sort'])
@@ -313,6 +313,7 @@ class CallMixin(object):
         """path: 'name', 'name[*]' (array contents), 'self.f', 'self.f[*]', 'kappa'"""
         from .contracts import parse_expr
         if path == 'kappa':
+            self.note_write(('K',), 'kappa')
             self.kappa = self.fresh('kappa', INT)
             return
         contents = path.endswith('[*]')
